@@ -4,12 +4,12 @@ Import ListNotations.
 Open Scope R_scope.
 
 Definition ads_p (psat : R) : adsorbate RNum :=
-  mkAds RNum (Some psat) None None None None None.
+  @ads_const RNum (Some psat) None None None None None.
 
 (* c_pressure reads nothing of the adsorbate but its saturation pressure: the other fields are arbitrary *)
 Lemma c_pressure_factor_gen psat T v (r1 r2 : prep) oM o1 o2 o3 o4 :
   0 < psat -> T <> 0 ->
-  c_pressure RNum v (p_mode r1) (p_mode r2) (p_unit r1) (p_unit r2) (mkAds RNum (Some psat) oM o1 o2 o3 o4) (Some T)
+  c_pressure RNum v (p_mode r1) (p_mode r2) (p_unit r1) (p_unit r2) (@ads_const RNum (Some psat) oM o1 o2 o3 o4) (Some T)
   = Ok (spec_conv (p_canon psat r1) (p_canon psat r2) v).
 Proof.
   intros Hp HT. unfold spec_conv.
